@@ -319,6 +319,10 @@ func govcTWCCSymbols(r *rand.Rand) govcTWCCCase {
 	default:
 		n = r.Intn(60 * govcScale)
 	}
+	long := r.Intn(40) == 0 // now and then a feedback packet about thousands of packets (long runs, 13-bit run lengths)
+	if long {
+		n = 1000 + r.Intn(9000)
+	}
 	style := r.Intn(4)
 	for i := 0; i < n; {
 		s := uint16(r.Intn(4))
@@ -330,6 +334,9 @@ func govcTWCCSymbols(r *rand.Rand) govcTWCCCase {
 		run := 1
 		if r.Intn(3) == 0 {
 			run = 1 + r.Intn(20)
+		}
+		if long && r.Intn(2) == 0 {
+			run = 1 + r.Intn(9000)
 		}
 		for j := 0; j < run && i < n; j++ {
 			c.symbols = append(c.symbols, s)
@@ -367,10 +374,17 @@ func govcTWCCChunks(r *rand.Rand, syms []uint16) []uint16 {
 		case k == 0 || (k == 1 && oneBit < 14 && oneBit < len(rest)):
 			if k == 0 {
 				// run length chunk over 1..same symbols, possibly overshooting at the very end
+				if same > 8191 {
+					same = 8191 // 13-bit run length
+				}
 				n := 1 + r.Intn(same)
 				w := rest[0]<<13 | uint16(n)
 				if n == len(rest) && r.Intn(2) == 0 {
-					w = rest[0]<<13 | uint16(n+r.Intn(100))
+					over := n + r.Intn(100)
+					if over > 8191 {
+						over = 8191
+					}
+					w = rest[0]<<13 | uint16(over)
 				}
 				out = append(out, w)
 				i += n
